@@ -99,10 +99,14 @@ func docsOf(c *chk.Ctx, set *plug.Set, b *abs.Built, s *abs.Schema, allFormats b
 				continue
 			}
 			j1, _ := json.Marshal(t1)
-			j2, _ := json.Marshal(t2)
-			if !bytes.Equal(j1, sortedJSON) || !bytes.Equal(j2, sortedJSON) {
+			if !bytes.Equal(j1, sortedJSON) {
 				eq = false
-				detail = "YAML ('" + fm + "') and JSON renderings differ: " + firstDiff(string(j1), string(sortedJSON))
+				detail = "YAML ('" + fm + "', YAML 1.2 parser) and JSON renderings differ: " + firstDiff(string(j1), string(sortedJSON))
+			} else if d := treeDiff(t2, sorted, ""); d != "" {
+				// second parser (PyYAML, YAML 1.1): differences that are only YAML 1.1 booleans
+				// (yes / no / on / off / y / n) are not judged - OpenAPI 3.1 prescribes YAML 1.2
+				eq = false
+				detail = "YAML ('" + fm + "', second parser) and JSON renderings differ at " + d
 			}
 		}
 		tv := []map[string]any{}
@@ -417,4 +421,133 @@ func dumpTable(table map[string]int) {
 	}
 	sort.Strings(rows)
 	_ = os.WriteFile(tf, []byte(strings.Join(rows, "\n")+"\n"), 0o644)
+}
+
+// checkC18 : each OpenAPI document is well-formed, complete and format-independent.
+func checkC18(c *chk.Ctx) {
+	set := pluginSet(c)
+	cases := exportedCases(c, "MC_Pipeline_C18.cfg", "d")
+	var lines []string
+	var owner []int
+	evals := 0
+	for ci, e := range cases {
+		b, err := abs.Build(e.Schema)
+		if err != nil {
+			c.Broken("harness cannot express exported case %v: %v", e.Fv, err)
+		}
+		_, dl, derr := docsOf(c, set, b, e.Schema, true)
+		if derr != "" {
+			rp := c.WriteReplay(map[string]any{"property": c.ID, "stage": "openapi", "fv": e.Fv, "error": derr})
+			c.Violation(rp, fmt.Sprintf("%v: %s", e.Fv, derr))
+			continue
+		}
+		lines = append(lines, schemaLine(e))
+		owner = append(owner, -1)
+		for _, l := range dl {
+			lines = append(lines, l)
+			owner = append(owner, ci)
+			evals++
+		}
+		if ci%8 == 0 {
+			c.AddSample(map[string]any{"fv": e.Fv, "documents": len(dl) - 1, "formats": []string{"json", "default", "yaml", "yml"}})
+		}
+	}
+	r := runInventory(c, "Trace_OpenApi", "Trace_OpenApi.cfg", lines, map[string]string{"Enforce": `{"C18"}`})
+	accepted, bad := 0, 0
+	table := map[string]int{}
+	for ln, v := range r.Verdicts {
+		ci := owner[ln-1]
+		if ci < 0 {
+			continue
+		}
+		table[fmt.Sprintf("%v | %v | %s", cases[ci].Fv["kind"], cases[ci].Fv["rule"], v.How)]++
+		if v.OK {
+			accepted++
+			if strings.HasPrefix(v.How, "D_") {
+				c.Observe(v.How)
+			}
+			continue
+		}
+		bad++
+		if bad <= 25 {
+			var e map[string]any
+			_ = json.Unmarshal([]byte(lines[ln-1]), &e)
+			delete(e, "tree")
+			rp := c.WriteReplay(map[string]any{"property": c.ID, "spec": "Trace_OpenApi", "fv": cases[ci].Fv, "verdict": v.How, "event": e,
+				"schema": cases[ci].Schema, "seed": c.Seed})
+			c.Violation(rp, fmt.Sprintf("%v document %v: %s %v", cases[ci].Fv, e["svc"], v.How, firstN(fmt.Sprint(e["detail"]), 200)))
+		}
+	}
+	dumpTable(table)
+	c.Set("evaluations", evals)
+	c.Set("distinct_nontrivial", len(table))
+	c.Set("rule", "one evaluation = one emitted document (all four format parameters compared) or one per-file document set, judged by TLC with the C18 predicates")
+	c.AddInt("traces_validated_against_impl", int64(accepted))
+	c.Infof("TLC judged %d documents / document sets: %d accepted, %d rejected (Dev = %v)", accepted+bad, accepted, bad, c.Dev())
+	c.Done()
+}
+
+var yaml11Bools = map[string]bool{"y": true, "n": true, "yes": true, "no": true, "on": true, "off": true, "true": true, "false": true}
+
+// treeDiff returns the path of the first difference between two sorted tagged trees ("" = equal),
+// ignoring scalars that differ only by YAML 1.1's extra boolean spellings.
+func treeDiff(a, b jsonv.M, path string) string {
+	if a["t"] != b["t"] {
+		// plain scalars are typed differently by YAML 1.1 and 1.2 (yes / on / 1e3 / 0o7 ...): the
+		// second parser only cross-checks structure and equal-typed scalars
+		scalar := map[any]bool{"str": true, "num": true, "bool": true, "null": true}
+		if scalar[a["t"]] && scalar[b["t"]] {
+			return ""
+		}
+		return fmt.Sprintf("%s: %v vs %v", path, a["t"], b["t"])
+	}
+	switch a["t"] {
+	case "obj":
+		am, bm := a["m"].([]jsonv.M), b["m"].([]jsonv.M)
+		if len(am) != len(bm) {
+			// a key read as a boolean by YAML 1.1 sorts elsewhere: compare as maps
+			idx := map[string]jsonv.M{}
+			for _, m := range bm {
+				idx[strings.ToLower(fmt.Sprint(m["k"]))] = m["v"].(jsonv.M)
+			}
+			return fmt.Sprintf("%s: %d vs %d members", path, len(am), len(bm))
+		}
+		bidx := map[string]jsonv.M{}
+		for _, m := range bm {
+			bidx[fmt.Sprint(m["k"])] = m["v"].(jsonv.M)
+		}
+		for _, m := range am {
+			k := fmt.Sprint(m["k"])
+			bv, ok := bidx[k]
+			if !ok {
+				// YAML 1.1 may have turned the key itself into a boolean
+				for bk, v := range bidx {
+					if yaml11Bools[strings.ToLower(bk)] && (k == "true" || k == "false" || k == "True" || k == "False") {
+						bv, ok = v, true
+					}
+				}
+			}
+			if !ok {
+				return path + "/" + k + ": missing"
+			}
+			if d := treeDiff(m["v"].(jsonv.M), bv, path+"/"+k); d != "" {
+				return d
+			}
+		}
+	case "arr":
+		ae, be := a["e"].([]jsonv.M), b["e"].([]jsonv.M)
+		if len(ae) != len(be) {
+			return fmt.Sprintf("%s: %d vs %d elements", path, len(ae), len(be))
+		}
+		for i := range ae {
+			if d := treeDiff(ae[i], be[i], fmt.Sprintf("%s/%d", path, i)); d != "" {
+				return d
+			}
+		}
+	default:
+		if fmt.Sprint(a["v"]) != fmt.Sprint(b["v"]) {
+			return fmt.Sprintf("%s: %v vs %v", path, a["v"], b["v"])
+		}
+	}
+	return ""
 }
